@@ -48,7 +48,7 @@ theorem forkRb_pos (p : P) (f : Nat) : 1 ≤ forkRb p f := by
 /-- the store after the fork handling, field by field -/
 theorem applyWs_forkWrites (p : P) (f : Nat) :
     applyWs p (forkWrites p f) =
-      applyW { p with records := p.records.filter (fun r => r.start ≤ f) } (.rollback (forkRb p f)) := by
+      applyW { p with records := p.records.filter (fun r => r.start ≤ f) } (.rollback (forkRb p f) (forkRb p f - 1)) := by
   unfold forkWrites
   simp only
   unfold applyWs
